@@ -225,7 +225,7 @@ func (o *c07Oracle) after(ch *chain, ci *callInfo) *Violation {
 		if mv.tombstoned != after.Sign[a].Tombstoned {
 			return violf("C07/tombstone", "%s: validator %s tombstoned=%v, expected %v", where, a, after.Sign[a].Tombstoned, mv.tombstoned)
 		}
-		if mv.tombstoned && !got.Jailed {
+		if mv.tombstoned && !before.Sign[a].Tombstoned && !got.Jailed { // a conviction of this block (permanence is C09's subject)
 			return violf("C07/tombstone", "%s: validator %s convicted of double signing but not jailed", where, a)
 		}
 	}
